@@ -112,6 +112,9 @@ func emitObs(id string, c rtgen.CaseT, ask []string, o rtgen.ObsT, st *hx.Stats)
 		if c.Req.Raw != "" {
 			st.Count("request_target_with_needless_escapes")
 		}
+		if rtgen.HasStatic(c.Script) {
+			st.Count("script_with_static_file_route")
+		}
 	}
 	return l.String() + hx.Comment(c)
 }
@@ -149,6 +152,10 @@ func fixed() []rtgen.CaseT {
 		mnt(G, "/api/v1", "/users/:id", 0), mnt(G, "/api/v1", "/", 1), mnt("DELETE", "/api/v1", "/users/:id", 2, rtgen.ConsT{Name: "id", Kind: "int"}),
 		mnt(G, "/api/latest/", "/users/:id", 0), mnt(G, "/api/latest/", "/", 1), mnt("DELETE", "/api/latest/", "/users/:id", 2, rtgen.ConsT{Name: "id", Kind: "int"})}
 	renamed := []rtgen.RegT{reg(G, "/u/:id/:tab", rtgen.ConsT{Name: "id", Kind: "int"}), reg(G, "/u/:name/profile", rtgen.ConsT{Name: "name", Kind: "regex", Arg: "[a-z]+"})}
+	st2 := func(sp string) []rtgen.RegT {
+		return []rtgen.RegT{{Method: G, Path: rtgen.StaticPattern(sp), Static: sp}, {Method: "HEAD", Path: rtgen.StaticPattern(sp), Static: sp}}
+	}
+	statics := append(append(append(append([]rtgen.RegT{reg(G, "/assets/:id")}, st2("/assets/*")...), st2("files")...), st2("/img/")...), st2("/css")...)
 	ovfDrop := []rtgen.RegT{reg(G, p8+"/:x/k"), reg(G, p8+"/*"), reg(G, p8+"/:y/:z/w")}
 	mk := func(s []rtgen.RegT, m, p string, nr bool) rtgen.CaseT {
 		return rtgen.CaseT{Script: s, Req: rtgen.ReqT{Method: m, Path: p}, NoRoute: nr}
@@ -205,6 +212,9 @@ func fixed() []rtgen.CaseT {
 		// a sibling that names the shared parameter position differently rejects (its constraint fails); the
 		// fallback that is served afterwards reads its own names, nothing of the rejected sibling's
 		mk(renamed, G, "/u/42/profile", false), mk(renamed, G, "/u/bob/profile", false), mk(renamed, G, "/u/42/x", false), mk(renamed, "PUT", "/u/42/profile", false),
+		// r.StaticFS in its four spellings: GET and HEAD of prefix/*; other methods 405 with Allow: GET, HEAD
+		mk(statics, G, "/assets/js/app.js", false), mk(statics, "HEAD", "/assets/js/app.js", false), mk(statics, "POST", "/assets/x", false),
+		mk(statics, G, "/files/a", false), mk(statics, G, "/img/logo.png", false), mk(statics, G, "/css/a/b/", false), mk(statics, G, "/assets", false), mk(statics, G, "/css/x", true),
 		// an abandoned alternative's capture past the inline slots is dropped too
 		mk(ovfDrop, G, "/1/2/3/4/5/6/7/8/9/m", false), mk(ovfDrop, G, "/1/2/3/4/5/6/7/8/9/k", false), mk(ovfDrop, G, "/1/2/3/4/5/6/7/8/9/10/11", false),
 	}
@@ -270,7 +280,7 @@ func main() {
 					}
 				}
 			}
-			if r.Chance(1, 2) && i < a.N {
+			if !rtgen.HasStatic(script) && r.Chance(1, 2) && i < a.N {
 				// two requests in flight on one router, one of them held (and possibly failing) at a chosen point
 				kind := hx.Pick(r, []string{"handler", "end-slow", "end-panic", "end-panic"})
 				qa, qb := rtgen.GenReq(r, script), rtgen.GenReq(r, script)
